@@ -1,6 +1,7 @@
 package batchkeyset
 
 import (
+	"sort"
 	"unicode/utf8"
 
 	"MODULE/restlicodec"
@@ -199,4 +200,56 @@ func fnvOf(b []byte) uint32 {
 		h *= 16777619
 	}
 	return h
+}
+
+// Harness_C09_BatchIds (C09): the ids parameter lists the keys in ascending
+// encoded order whatever the order in which they were added, and whether or
+// not the set was encoded before further keys were added: a set encoded, then
+// extended, then encoded again prints what a fresh set with the same keys
+// prints. kind 0: string keys (primitive set), 1: bytes keys (hash-bucketed set).
+func Harness_C09_BatchIds(kind int) {
+	raw := [3]string{}
+	for i := range raw {
+		raw[i] = string([]byte{"abc"[verif.Choose(3)], "xyz"[i]}) // distinct by construction, order solver-chosen
+	}
+	encodeAfter := verif.Choose(3) // encode once after this many keys (0: only at the end)
+	var incremental, fresh string
+	if kind == 0 {
+		a, b := NewBatchKeySet[string](), NewBatchKeySet[string]()
+		for i, k := range raw {
+			verif.Assert(a.AddKey(k) == nil, "AddKey")
+			if i+1 == encodeAfter {
+				_, _ = a.EncodeQueryParams()
+			}
+		}
+		sorted := []string{raw[0], raw[1], raw[2]}
+		sort.Strings(sorted)
+		for _, k := range sorted {
+			verif.Assert(b.AddKey(k) == nil, "AddKey")
+		}
+		incremental, _ = a.EncodeQueryParams()
+		fresh, _ = b.EncodeQueryParams()
+	} else {
+		a, b := NewBytesKeySet(), NewBytesKeySet()
+		for i, k := range raw {
+			verif.Assert(a.AddKey([]byte(k)) == nil, "AddKey")
+			if i+1 == encodeAfter {
+				_, _ = a.EncodeQueryParams()
+			}
+		}
+		sorted := []string{raw[0], raw[1], raw[2]}
+		sort.Strings(sorted)
+		for _, k := range sorted {
+			verif.Assert(b.AddKey([]byte(k)) == nil, "AddKey")
+		}
+		incremental, _ = a.EncodeQueryParams()
+		fresh, _ = b.EncodeQueryParams()
+	}
+	verif.Assert(incremental == fresh, "the same keys print differently depending on insertion order or on an earlier encoding: "+incremental+" vs "+fresh)
+	want := "ids=List("
+	sorted := []string{raw[0], raw[1], raw[2]}
+	sort.Strings(sorted)
+	want += sorted[0] + "," + sorted[1] + "," + sorted[2] + ")"
+	verif.Assert(fresh == want, "ids are not in ascending encoded order: "+fresh)
+	verif.Cover("ordered")
 }
